@@ -7,6 +7,7 @@ use packing::traits::*;
 use packing::wallpaper::{get_wallpaper_group, WyckoffSite};
 use packing::{LJShape2, LineShape, MolecularShape2, PackedState, PotentialState};
 
+use crate::common::{machinery_error, par_map};
 use crate::oracle::*;
 
 pub type HardPoly = PackedState<LineShape>;
@@ -21,6 +22,8 @@ pub enum ShapeSpec {
     Trimer(f64, f64, f64),
     LjCircle,
     LjTrimer(f64, f64, f64),
+    /// A molecule of arbitrary particles (x, y, sigma, epsilon, cutoff), as a state file may hold
+    LjCustom(String, Vec<(f64, f64, f64, f64, Option<f64>)>),
 }
 
 impl ShapeSpec {
@@ -32,10 +35,11 @@ impl ShapeSpec {
             ShapeSpec::Trimer(r, a, d) => format!("trimer({},{},{})", r, a, d),
             ShapeSpec::LjCircle => "lj-circle".into(),
             ShapeSpec::LjTrimer(r, a, d) => format!("lj-trimer({},{},{})", r, a, d),
+            ShapeSpec::LjCustom(n, _) => format!("lj-custom({})", n),
         }
     }
     pub fn is_lj(&self) -> bool {
-        matches!(self, ShapeSpec::LjCircle | ShapeSpec::LjTrimer(..))
+        matches!(self, ShapeSpec::LjCircle | ShapeSpec::LjTrimer(..) | ShapeSpec::LjCustom(..))
     }
     pub fn is_poly(&self) -> bool {
         matches!(self, ShapeSpec::Polygon(_) | ShapeSpec::Radial(_))
@@ -49,6 +53,11 @@ impl ShapeSpec {
             ShapeSpec::Trimer(r, a, d) => serde_json::to_value(MolecularShape2::from_trimer(*r, *a, *d)).unwrap(),
             ShapeSpec::LjCircle => serde_json::to_value(LJShape2::circle()).unwrap(),
             ShapeSpec::LjTrimer(r, a, d) => serde_json::to_value(LJShape2::from_trimer(*r, *a, *d)).unwrap(),
+            ShapeSpec::LjCustom(n, items) => serde_json::to_value(LJShape2 {
+                name: n.clone(),
+                items: items.iter().map(|&(x, y, sigma, epsilon, cutoff)| packing::LJ2 { position: nalgebra::Point2::new(x, y), sigma, epsilon, cutoff }).collect(),
+            })
+            .unwrap(),
         }
     }
     /// Oracle geometry from the shape's JSON (numbers only). For LJ shapes the discs have
@@ -207,6 +216,7 @@ impl AnyState {
             ShapeSpec::Trimer(r, a, d) => AnyState::Mol(PackedState::from_group(MolecularShape2::from_trimer(*r, *a, *d), &g).unwrap()),
             ShapeSpec::LjCircle => AnyState::Lj(PotentialState::from_group(LJShape2::circle(), &g).unwrap()),
             ShapeSpec::LjTrimer(r, a, d) => AnyState::Lj(PotentialState::from_group(LJShape2::from_trimer(*r, *a, *d), &g).unwrap()),
+            ShapeSpec::LjCustom(..) => AnyState::Lj(PotentialState::from_group(serde_json::from_value::<LJShape2>(shape.json()).unwrap(), &g).unwrap()),
         }
     }
     pub fn score(&self) -> Option<f64> {
@@ -274,4 +284,57 @@ impl AnyState {
             AnyState::Lj(s) => s.generate_basis().iter().map(|b| b.get_value()).collect(),
         }
     }
+}
+
+// ------------------------------------------------------------------------------------------
+// depth-2 histories of whole states on one thread
+
+pub struct HistoryMismatch {
+    pub first: usize,
+    pub second: usize,
+    pub alone: Option<f64>,
+    pub after: Option<f64>,
+}
+
+fn on_fresh_thread<R: Send, F: FnOnce() -> R + Send>(f: F) -> R {
+    std::thread::scope(|s| s.spawn(f).join().unwrap_or_else(|_| machinery_error("a state evaluation panicked on its own thread")))
+}
+
+/// The score of every document read and scored on a thread of its own (nothing was evaluated
+/// on that thread before).
+pub fn scores_alone(docs: &[Value]) -> Vec<Option<f64>> {
+    par_map(docs, |_, d| on_fresh_thread(|| AnyState::from_json(d).unwrap_or_else(|e| machinery_error(&e)).score()))
+}
+
+/// Every ordered pair (i, j), i != j, of the documents: on a fresh thread read and score i, then
+/// read and score j. What j scores must be, bit for bit, what it scores on a thread of its own:
+/// a score is a function of the state alone, whatever the thread evaluated before.
+pub fn ordered_pair_histories(docs: &[Value]) -> (u64, Vec<HistoryMismatch>) {
+    let alone = scores_alone(docs);
+    let idx: Vec<usize> = (0..docs.len()).collect();
+    let res = par_map(&idx, |_, &i| {
+        let mut bad = vec![];
+        let mut n = 0u64;
+        for j in 0..docs.len() {
+            if i == j {
+                continue;
+            }
+            n += 1;
+            let after = on_fresh_thread(|| {
+                let _ = AnyState::from_json(&docs[i]).unwrap_or_else(|e| machinery_error(&e)).score();
+                AnyState::from_json(&docs[j]).unwrap_or_else(|e| machinery_error(&e)).score()
+            });
+            if after.map(f64::to_bits) != alone[j].map(f64::to_bits) {
+                bad.push(HistoryMismatch { first: i, second: j, alone: alone[j], after });
+            }
+        }
+        (n, bad)
+    });
+    let mut total = 0;
+    let mut out = vec![];
+    for (n, b) in res {
+        total += n;
+        out.extend(b);
+    }
+    (total, out)
 }
